@@ -48,6 +48,9 @@ class PathEnd(Exception):
     """the current path ends here (infeasible assumption, or end of an inductive step)"""
 
 
+_PROFILE = bool(_os.environ.get("PYVC_PROFILE"))
+
+
 class Blocked(Exception):
     """the path reached a call that blocks forever (modelled external)"""
 
@@ -114,6 +117,7 @@ class Engine(object):
         self.branch_full_timeout_ms = 400
         self.cvc5_for_branches = True
         self.cvc5_branch_timeout_s = 10
+        self.time_scale = 1.0      # see scale_timeouts(): wall-clock budgets follow the measured machine speed
         self.stats = {"paths": 0, "branch_checks": 0, "solver_time": 0.0}
         self.dropped = []
         self.externals_used = set()
@@ -130,6 +134,17 @@ class Engine(object):
         code = getattr(fn, "__code__", None)
         return (code is not None and (code.co_filename == _SPEC_FILE or (
             self.contracts_dir is not None and code.co_filename.startswith(self.contracts_dir))))
+
+    def scale_timeouts(self, k):
+        """all solver budgets are wall-clock; k = how much slower than the reference machine this run is
+        (measured once per run by the driver), so that verdicts do not flip on a loaded or slower host"""
+        k = max(1.0, min(8.0, float(k)))
+        self.time_scale = k
+        self.branch_timeout_ms = int(self.branch_timeout_ms * k)
+        self.vc_timeout_ms = int(self.vc_timeout_ms * k)
+        self.cvc5_timeout_s = int(self.cvc5_timeout_s * k + 0.5)
+        self.branch_full_timeout_ms = int(self.branch_full_timeout_ms * k)
+        self.cvc5_branch_timeout_s = int(self.cvc5_branch_timeout_s * k + 0.5)
 
     def is_repo_class(self, cls):
         mod = sys.modules.get(getattr(cls, "__module__", None))
@@ -337,7 +352,11 @@ class Ctx(InterpMixin, ModelsMixin):
         self.eng.stats["branch_checks"] += 1
         from .solve import guarded_check
         r = guarded_check(self.solver, getattr(self, "_cur_budget_ms", self.eng.branch_timeout_ms), *extra)
-        self.eng.stats["solver_time"] += time.time() - t
+        dt = time.time() - t
+        self.eng.stats["solver_time"] += dt
+        if _PROFILE and dt > 0.2:
+            sys.stderr.write("PROFILE check %.2fs budget %dms -> %s\n"
+                             % (dt, getattr(self, "_cur_budget_ms", self.eng.branch_timeout_ms), r))
         return r
 
     def _check2(self, extra):
@@ -445,18 +464,37 @@ class Ctx(InterpMixin, ModelsMixin):
         # the Boolean+LIA abstraction is weaker than the pc: unsat there is a sound 'entailed'
         if self.arith.check(z3.Not(cond)) == z3.unsat:
             return True
-        self.solver.set("timeout", 1000)
-        self._cur_budget_ms = 1000
+        self.solver.set("timeout", int(1000 * self.eng.time_scale))
+        self._cur_budget_ms = int(1000 * self.eng.time_scale)
         try:
             r = self._check(z3.Not(cond))
         finally:
             self._cur_budget_ms = self.eng.branch_timeout_ms
             self.solver.set("timeout", self.eng.branch_timeout_ms)
+        self.last_entails_unknown = False
         if r == z3.unknown and self.eng.cvc5_for_branches:
             from .solve import run_cvc5, smt2_for
             res, _ = run_cvc5(smt2_for(self.pc, z3.Not(cond)), self.eng.cvc5_branch_timeout_s)
+            self.last_entails_unknown = res not in ("unsat", "sat")
             return res == "unsat"
+        self.last_entails_unknown = r == z3.unknown
         return r == z3.unsat
+
+    def entails_patiently(self, cond):
+        """entails(), and when both solvers ran out of budget one more attempt with a fresh solver and a
+        long budget: used where 'unknown' would otherwise push the path out of the supported subset"""
+        if self.entails(cond):
+            return True
+        if not getattr(self, "last_entails_unknown", False):
+            return False
+        from .solve import guarded_check
+        s1 = z3.Solver()
+        budget = int(12000 * self.eng.time_scale)
+        s1.set("timeout", budget)
+        for c in self.pc:
+            s1.add(c)
+        s1.add(z3.Not(cond.term if isinstance(cond, SBool) else cond))
+        return guarded_check(s1, budget) == z3.unsat
 
     def model_value(self, term):
         """A value of `term` in some model of the pc; None when the pc is unsatisfiable.  When the
